@@ -40,6 +40,9 @@ type PeerPlan struct {
 	Lies []netsim.Lie `json:",omitempty"`
 	Rule string       `json:",omitempty"` // invalid-hdr: broken rule
 	At   int32        `json:",omitempty"` // height parameter (fork point / invalid height / stale height)
+	// Claim, if > 0, is the height a stale peer announces in its version
+	// message (more than it can serve).
+	Claim int32 `json:",omitempty"`
 }
 
 // Plan of a convergence scenario.
@@ -146,6 +149,31 @@ func PlanFromSeed(seed int64, k int) Plan {
 		p.FirstPeer = 0
 		p.Extend, p.ReorgDepth = 0, 0
 	}
+	if k == 6 {
+		// A fixed scenario: the first peer is on the honest chain but has only
+		// its first 60 blocks, while its version message claims height 200.
+		p.ChainLen = 120
+		p.Checkpoints = nil
+		p.Peers = []PeerPlan{{Kind: BStale, At: 60, Claim: 200}, {Kind: BHonest}}
+		p.FirstPeer = 0
+		p.Extend, p.ReorgDepth = 2, 0
+	}
+	if k == 4 || k == 5 {
+		// Fixed scenarios: the client's first peer (so its sync peer) serves
+		// a chain whose header at height 60 breaks ONE rule (k=4: only its
+		// timestamp is too far in the future; k=5: a rule rotating with the
+		// seed) and claims that height; an honest peer connects afterwards.
+		rule := ref.RuleFuture
+		if k == 5 {
+			others := []string{ref.RulePoW, ref.RuleBitsRange, ref.RuleBits, ref.RuleMTP, ref.RuleVersion}
+			rule = others[int(uint64(seed)%uint64(len(others)))]
+		}
+		p.ChainLen = 120
+		p.Checkpoints = nil
+		p.Peers = []PeerPlan{{Kind: BInvalidHdr, At: 60, Rule: rule}, {Kind: BHonest}}
+		p.FirstPeer = 0
+		p.Extend, p.ReorgDepth = 2, 0
+	}
 	if k == 1 {
 		// A fixed scenario: a peer that lies ONLY in its filter-header
 		// checkpoints (its cfheaders and filters are correct), next to an
@@ -204,7 +232,10 @@ func Build(p Plan) *Built {
 			pr.Delay = 15 * time.Millisecond
 			b.Honest = append(b.Honest, pr)
 		case BStale:
-			w.AddPeer(tip.Ancestor(pp.At))
+			pr := w.AddPeer(tip.Ancestor(pp.At))
+			if pp.Claim > 0 {
+				pr.StartHeightOverride = pp.Claim
+			}
 		case BLighter:
 			f := tip.Ancestor(pp.At)
 			l := int(tip.Height-f.Height) - 1
